@@ -45,6 +45,16 @@ var comps = []Comp{
 	{"attList", []string{SBV(64)}, SBytes},
 }
 
+// the four collections whose GetAll* list is a view of their prefix range
+type listView struct{ Prefix, Type, Cnt, Comp string }
+
+var listViews = map[string]listView{
+	"limitList": {"PerMessageBurnLimit/value/", "PerMessageBurnLimit", "nLimits", "limitList"},
+	"pairList":  {"TokenPair/value/", "TokenPair", "nPairs", "pairList"},
+	"nonceList": {"UsedNonce/value/", "Nonce", "nNonces", "nonceList"},
+	"msgrList":  {"RemoteTokenMessenger/value/", "RemoteTokenMessenger", "nMsgrs", "msgrList"},
+}
+
 var compByName = map[string]*Comp{}
 
 func init() {
@@ -214,10 +224,32 @@ func coupling(st *State, name string, keys []*Term) *Term {
 	case "nAtt":
 		return st.cnt["Attester/value/"]
 	case "nLimits", "nPairs", "nNonces", "nMsgrs":
-		return App("rangeCountOf_"+name, SBV(64), st.rawHas)
+		// number of raw keys under the collection's prefix (L0 iterator contract: Valid() while pos < count)
+		for _, li := range listViews {
+			if li.Cnt == name {
+				return App("rangeCount", SBV(64), st.rawHas, BytesConst(li.Prefix))
+			}
+		}
 	case "limitList", "pairList", "nonceList", "msgrList":
+		// field of the pos-th entry the prefix iterator yields, decoded; the zero value beyond the count
+		li := listViews[parts[0]]
 		c := compByName[name]
-		return App("rangeCol_"+strings.ReplaceAll(name, ".", "_"), c.ValSort, st.rawHas, st.rawVal, keys[0])
+		raw := Select(st.rawVal, rangeKeyTerm(st, BytesConst(li.Prefix), keys[0]))
+		var d, zero *Term
+		if strings.HasSuffix(parts[1], ".isnil") {
+			d = Eq(Blen(dec(li.Type, strings.TrimSuffix(parts[1], ".isnil"), SBytes, raw)), BV(64, 0))
+		} else {
+			d = dec(li.Type, parts[1], c.ValSort, raw)
+		}
+		switch {
+		case c.ValSort == SBool:
+			zero = TFalse
+		case c.ValSort == SBytes:
+			zero = EmptyBytes
+		default:
+			zero = BV(bvWidth(c.ValSort), 0)
+		}
+		return Ite(BVUlt(keys[0], coupling(st, li.Cnt, nil)), d, zero)
 	case "attList":
 		k := rangeKeyTerm(st, BytesConst("Attester/value/"), keys[0])
 		return Ite(BVUlt(keys[0], st.cnt["Attester/value/"]), dec("Attester", "Attester", SBytes, Select(st.rawVal, k)), EmptyBytes)
